@@ -116,6 +116,32 @@ void h_parse_integer_(void)
   VERIF_CANARY();
 }
 
+void h_parse_integer(void)
+{
+  SX_INPUT()
+  ASSUME(in_i < in_n);
+  size_t pos = in_i;
+  parse_integer((const char *)in_s, in_n, &pos);
+  VERIF_CANARY();
+}
+
+void h_parse_hinteger(void)
+{
+  SX_INPUT()
+  ASSUME(in_i < in_n);
+  size_t pos = in_i;
+  parse_hinteger((const char *)in_s, in_n, &pos);
+  VERIF_CANARY();
+}
+
+void h_sx_parse_token(void)
+{
+  SX_INPUT()
+  struct sx_parse_result r = sx_parse_token((const char *)in_s, in_n, in_i);
+  (void)r;
+  VERIF_CANARY();
+}
+
 /* ---- value of an integer literal (tier B: up to SX_VDIGITS digits, loops
  * unwound; plain harness, no contracts, the real digit2int and the real
  * static table).  20 decimal digits cover every value below 2^64 and the
@@ -138,6 +164,10 @@ static void sx_integer_value(int hex)
     CHECK(r->type == SXT_INTEGER, "integer literal yields an integer node");
     CHECK(r->data.u64 == spec_sx_value(s, off, pos, hex ? 16u : 10u),
           "value == positional value of the digit run (hex digits in either case), modulo 2^64");
+#ifdef SX_VHORNER
+    CHECK(r->data.u64 == spec_sx_horner(s, off, pos, hex ? 16u : 10u),
+          "value == most-significant-digit-first (Horner) reading, modulo 2^64");
+#endif
   }
 }
 void h_integer_value_dec(void) { sx_integer_value(0); VERIF_CANARY(); }
